@@ -10,51 +10,16 @@ import corpus as corpus_mod
 FIX_RULES = ["jsx-curly-braces", "jsx-no-unescaped-entities", "jsx-boolean-value", "jsx-props-no-spread-multi",
              "no-window", "no-window-prefix", "no-process-global", "no-node-globals", "verbatim-module-syntax"]
 
-# Classes of genuine defects of the pinned tree, proposed to the main engineer (repairs: work/c13-fix-*.diff).
+# Defect classes of this property that are still present in /repo (listed in /verif/known_findings.json by the main
+# engineer; this dict is documentation only - the verdict uses known_findings.json).  The six `fix:` commits of /repo
+# (jsx-curly-braces quote, jsx-props-no-spread-multi range, jsx-boolean-value glue, verbatim-module-syntax type keyword
+# and panic, node: import placement) removed every other class that `cause()` below can still name.
 PROPOSED_KNOWN = {
-    "C13.jsx-curly-braces:unparsable:double-quote-in-value":
-        "jsx-curly-braces wraps the string value in double quotes without looking at it: <a b={'x\"y'} /> becomes <a b=\"x\"y\" /> (parse error)",
-    "C13.jsx-props-no-spread-multi:unparsable:fixed-offsets-around-spread":
-        "jsx-props-no-spread-multi removes [start-2, end+1) around the spread assuming ' {' before and '}' directly behind it: "
-        "<a {...x}{...x}/> -> <a {...x/>, <a {...x} { ...x }/> -> <a {...x} }/>, comments between the attributes likewise (parse error)",
-    "C13.jsx-props-no-spread-multi:change-off-char-boundary:fixed-offsets-around-spread":
-        "jsx-props-no-spread-multi: start-2 lands inside a multi-byte white space character (<a {...x}U+3000{...x}/>): fix range off a char boundary (also C03)",
-    "C13.verbatim-module-syntax:unparsable:type-before-namespace-specifier":
-        "verbatim-module-syntax inserts 'type ' in front of a namespace specifier: import A, * as ns from 'x' -> import A, type * as ns from 'x' (parse error)",
-    "C13.jsx-curly-braces:new-syntax-diagnostic:double-quote-in-value":
-        "jsx-curly-braces, same defect: when the text after the embedded double quote happens to parse (<a b={'x\">'}>..</a> -> <a b=\"x\">\">..</a>) the attribute is cut short and the rest becomes element content with syntax diagnostics",
-    "C13.jsx-boolean-value:unparsable:attribute-glued-to-next":
-        "jsx-boolean-value deletes from the end of the attribute name to the end of {true}; if the next attribute follows without white space the two names are glued: <Foo a:b={true}c:d /> -> <Foo a:bc:d /> (parse error)",
-    "C13.verbatim-module-syntax:new-syntax-diagnostic:type-before-default-specifier":
-        "verbatim-module-syntax inserts 'type ' in front of a DEFAULT specifier that is followed by further specifiers: import A, { type B, C } -> import type A, { type B, C } "
-        "(the whole declaration becomes type-only; the parser reports the inline type modifier as a syntax error)",
-    "C13.verbatim-module-syntax:not-fewer:type-before-default-specifier":
-        "verbatim-module-syntax, same defect: `import type A, * as ns` makes ns type-only as well, so a value export of ns is now reported instead (not fewer diagnostics)",
-    "C13.verbatim-module-syntax:unparsable:type-before-string-named-specifier":
-        "verbatim-module-syntax inserts 'type ' in front of a specifier imported under a string name: import { type \"a-b\" as A } is rejected by the parser",
-    "C13.verbatim-module-syntax:unparsable:type-keyword-in-javascript":
-        "verbatim-module-syntax also runs on JavaScript/JSX files where every unused import counts as type-only; its fix inserts the TypeScript-only 'type' keyword (parse error)",
-    "C13.no-process-global:unparsable:import-into-commonjs":
-        "no-process-global offers `import process from \"node:process\"` in a .cjs file (import declarations are a parse error in a CommonJS script)",
-    "C13.no-node-globals:unparsable:import-into-commonjs":
-        "no-node-globals offers an import declaration in a .cjs file (parse error in a CommonJS script)",
-    "C13.no-process-global:not-fewer:import-inside-nested-module-block":
-        "no-process-global inserts the import after the most recent import declaration even if that one sits inside `declare module 'x' { ... }`: the import lands in the block and the diagnostic stays",
-    "C13.no-node-globals:not-fewer:import-inside-nested-module-block":
-        "no-node-globals: same placement after an import nested in `declare module 'x' { ... }`; the diagnostic stays",
-    "C13.no-process-global:not-fewer:jsx-intrinsic-element-name":
-        "no-process-global flags the intrinsic JSX element name <process/>; the offered import cannot remove that diagnostic",
     "C13.no-process-global:new-syntax-diagnostic:import-makes-script-a-module":
         "no-process-global: adding an import declaration turns a sloppy-mode script into a module; script-only syntax in it (with, legacy octal, `yield` as a name) becomes a syntax error reported by the parser",
     "C13.no-node-globals:new-syntax-diagnostic:import-makes-script-a-module":
         "no-node-globals: same effect of the inserted import declaration on script-only syntax",
 }
-
-
-# Repairs that have been applied to /repo (then the generators ask the *_repaired builder models and expect what
-# the repaired rules do).  Names: curly, spread, boolean, verbatim, globals.  C13_REPAIRED=a,b overrides (testing a patch).
-REPAIRED_IN_REPO = set()
-REPAIRED = set(x for x in os.environ.get("C13_REPAIRED", "").split(",") if x) or REPAIRED_IN_REPO
 
 
 # ---------------------------------------------------------------------------------------------- helpers
@@ -248,10 +213,7 @@ def g_curly_element(rng, t, sites, pending, depth, parent_is_element=True):
                 t.add(rng.choice(["=", " = "]))
                 v = rand_value(rng)
                 s, _ = t.add("{"); t.add(rng.choice(["", " "])); t.add(js_str(rng, v)); t.add(rng.choice(["", " "])); _, e = t.add("}")
-                if "curly" in REPAIRED:
-                    sites.append({"ds": s, "de": e, "reqs": [{"req": "12 %d %d %s" % (s, e, pipe.enc_str(v)), "dec": "optchange_nofix"}]})
-                else:
-                    sites.append({"ds": s, "de": e, "reqs": [req_change("1 %d %d %s" % (s, e, pipe.enc_str(v)))]})
+                sites.append({"ds": s, "de": e, "reqs": [{"req": "1 %d %d %s" % (s, e, pipe.enc_str(v)), "dec": "optchange_nofix"}]})
             elif k < 0.62 and depth < 2:
                 t.add("=")
                 s = t.n
@@ -370,14 +332,13 @@ def gen_boolean(rng):
         eq_s, _ = t.add("=")
         t.add(rng.choice(["", " ", "/*c*/", "\n"]))
         s, _ = t.add("{"); t.add(rng.choice(["", " ", "  "])); t.add("true"); t.add(rng.choice(["", " "])); _, e = t.add("}")
-        sites.append({"ds": s, "de": e, "reqs": [req_change("5 1 %d %d %d" % (name_end, eq_s, e))], "bool": (name_end, eq_s, e)})
+        sites.append({"ds": s, "de": e, "reqs": [], "bool": (name_end, eq_s, e)})
     t.add(rng.choice([" />", "/>", "></Foo>" if t.parts[1] == "<Foo" else "></a>"]))
-    if "boolean" in REPAIRED:
-        b = t.src().encode("utf8")
-        for st in sites:
-            ne, qs, e = st["bool"]
-            nxt = b[e:].decode("utf8")[:1]
-            st["reqs"] = [req_change("14 1 %d %d %d %s" % (ne, qs, e, pipe.enc_opt(nxt or None, lambda c: str(ord(c)))))]
+    b = t.src().encode("utf8")
+    for st in sites:       # the character behind the container is only known now
+        ne, qs, e = st["bool"]
+        nxt = b[e:].decode("utf8")[:1]
+        st["reqs"] = [req_change("5 1 %d %d %d %s" % (ne, qs, e, pipe.enc_opt(nxt or None, lambda c: str(ord(c)))))]
     return {"src": t.src(), "media": rng.choice(["jsx", "tsx"]), "rule": "jsx-boolean-value", "sites": sites}
 
 
@@ -406,15 +367,13 @@ def gen_spread(rng):
         ex = rng.choice(["x", "x", "x", "y", "x.y", "f(a)", "é"])
         g1 = "" if nice else rng.choice(["", "", " ", "/*c*/"])
         g2 = "" if nice else rng.choice(["", "", " ", "\n"])
-        t.add("{" + g1)
+        lb_s, _ = t.add("{" + g1)
         s, _ = t.add("...")
         _, e = t.add(ex)
         _, rb_end = t.add(g2 + "}")
-        if ex in seen:
-            if "spread" in REPAIRED:
-                sites.append({"ds": s, "de": e, "reqs": [req_change("13 %d %d" % (prev_end, rb_end))]})
-            else:
-                sites.append({"ds": s, "de": e, "reqs": [{"req": "6 %d %d" % (s, e), "dec": "optchange"}]})
+        if ex in seen:      # tokens around the spread node: `{` and `}`; the token in front of `{` ends at prev_end
+            sites.append({"ds": s, "de": e, "reqs": [{"req": "6 1 1 %d %d 1 1 %d %d 1 %d" % (lb_s, lb_s + 1, rb_end - 1, rb_end, prev_end),
+                                                      "dec": "optchange_nofix"}]})
         seen.add(ex)
     t.add(rng.choice([" />", "/>"]))
     return {"src": t.src(), "media": rng.choice(["jsx", "tsx"]), "rule": "jsx-props-no-spread-multi", "sites": sites}
@@ -512,7 +471,8 @@ SCRIPT_ONLY = ["with (o) { q; }", "x = 010;", "var yield = 1;"]
 
 def gen_global_like(rng, rule, names, req_of, dec):
     t, sites = T(), []
-    media = rng.choice(["ts", "ts", "js", "mjs", "tsx", "jsx", "mts", "cts"])
+    media = rng.choice(["ts", "ts", "js", "mjs", "tsx", "jsx", "mts", "cts", "cjs"])
+    cjs = media == "cjs"
     t.add(rng.choice(["", "", "// A copyright notice é漢😀\n\n", "#!/usr/bin/env node\n", "/* header */ ", "\n", "\r\n"]))
     code_start = [None]
     last_import = [None]
@@ -529,11 +489,14 @@ def gen_global_like(rng, rule, names, req_of, dec):
             if k:
                 s, e = t.add(name)
                 if flagged and name != top_shadow:
-                    sites.append({"ds": s, "de": e, "reqs": [{"req": req_of(name, last_import[0], s, e), "dec": dec}]})
+                    sites.append({"ds": s, "de": e, "reqs": [{"req": req_of(cjs, name, last_import[0], s, e), "dec": dec}]})
             t.add(piece)
     items = []
-    for _ in range(rng.choice([0, 0, 1, 2, 3])):
+    for _ in range(0 if cjs else rng.choice([0, 0, 1, 2, 3])):
         items.append(("i", rng.choice(IMPORTS[:5] if media in ("js", "mjs", "jsx") else IMPORTS)))
+    if media in ("ts", "mts") and rng.random() < 0.15:
+        # an import nested in an ambient module block is not a place to put the new import behind
+        items.insert(rng.randrange(len(items) + 1), ("p", "declare module 'dm' { import q9 from 'q'; }"))
     if rng.random() < 0.2:
         items.insert(0, ("p", '"use strict";'))
     for _ in range(rng.randint(1, 5)):
@@ -542,13 +505,16 @@ def gen_global_like(rng, rule, names, req_of, dec):
         if k < 0.55:
             items.append(("f", rng.choice(G_FLAGGED), name))
         elif k < 0.75:
-            items.append(("p", rng.choice(G_PLAIN).replace("NAME", name)))
+            if media in ("jsx", "tsx") and name[0].islower() and rng.random() < 0.3:
+                items.append(("p", "<%s />;" % name))          # intrinsic element name, not a reference
+            else:
+                items.append(("p", rng.choice(G_PLAIN).replace("NAME", name)))
         elif k < 0.9:
             items.append(("w", rng.choice(G_SHADOW_WRAPS), rng.choice(G_FLAGGED + G_PLAIN), name))
-        else:
+        elif not cjs:
             items.append(("i", rng.choice(IMPORTS[:5])))
     if top_shadow:
-        items.insert(rng.randrange(len(items) + 1), ("p", rng.choice(G_TOP_SHADOW).replace("NAME", top_shadow)))
+        items.insert(rng.randrange(len(items) + 1), ("p", rng.choice([x for x in G_TOP_SHADOW if not (cjs and x.startswith("import"))]).replace("NAME", top_shadow)))
     for it in items:
         if it[0] == "i":
             stmt_start()
@@ -579,12 +545,12 @@ def gen_global_like(rng, rule, names, req_of, dec):
 
 def gen_process(rng):
     return gen_global_like(rng, "no-process-global", ["process"],
-                           lambda name, li, s, e: "8 %s CS" % pipe.enc_opt(li, str), "change")
+                           lambda cjs, name, li, s, e: "8 %d %s CS" % (cjs, pipe.enc_opt(li, str)), "optchange_nofix")
 
 
 def gen_node_globals(rng):
     return gen_global_like(rng, "no-node-globals", NODE_NAMES,
-                           lambda name, li, s, e: "9 %s %s CS %d %d" % (pipe.enc_str(name), pipe.enc_opt(li, str), s, e), "optchange")
+                           lambda cjs, name, li, s, e: "9 %d %s %s CS %d %d" % (cjs, pipe.enc_str(name), pipe.enc_opt(li, str), s, e), "optopt")
 
 
 # ---- verbatim-module-syntax
@@ -689,24 +655,22 @@ def gen_verbatim(rng):
         tu = [s for s in im["specs"] if not s["inline"] and s["local"] not in value_used and s["local"] not in exported_value]
         inl = [s for s in im["specs"] if s["inline"]]
         if len(tu) + len(inl) == len(im["specs"]):
-            spans = " ".join("%d %d" % s["tspan"] for s in inl)
-            sites.append({"ds": im["kw"][0], "de": im["kw"][1], "reqs": [{"req": "10 %d %d %s" % (im["kw"][1], len(inl), spans), "dec": "changes"}]})
+            spans = " ".join("1 %d %d" % s["tspan"] for s in inl)
+            sites.append({"ds": im["kw"][0], "de": im["kw"][1], "reqs": [{"req": "10 %d %d %s" % (im["kw"][1], len(inl), spans), "dec": "optchanges"}]})
         else:
             for s in tu:
-                if "verbatim" in REPAIRED and (s["kind"] != "named" or s.get("strname")):
-                    sites.append({"ds": s["s"], "de": s["e"], "reqs": [], "nofix": True})
-                else:
-                    sites.append({"ds": s["s"], "de": s["e"], "reqs": [req_change("11 %d" % s["s"])]})
+                named_ident = s["kind"] == "named" and not s.get("strname")
+                sites.append({"ds": s["s"], "de": s["e"], "reqs": [{"req": "11 %d %d" % (named_ident, s["s"]), "dec": "optchange_nofix"}]})
     if export_stmt and not export_stmt["type_only"]:
         es = export_stmt["specs"]
         tu = [s for s in es if not s["inline"] and s["local"] not in value_used and s["local"] not in import_value]
         inl = [s for s in es if s["inline"]]
         if len(tu) + len(inl) == len(es):
-            spans = " ".join("%d %d" % s["tspan"] for s in inl)
-            sites.append({"ds": export_stmt["kw"][0], "de": export_stmt["kw"][1], "reqs": [{"req": "10 %d %d %s" % (export_stmt["kw"][1], len(inl), spans), "dec": "changes"}]})
+            spans = " ".join("1 %d %d" % s["tspan"] for s in inl)
+            sites.append({"ds": export_stmt["kw"][0], "de": export_stmt["kw"][1], "reqs": [{"req": "10 %d %d %s" % (export_stmt["kw"][1], len(inl), spans), "dec": "optchanges"}]})
         else:
-            for s in tu:
-                sites.append({"ds": s["s"], "de": s["e"], "reqs": [req_change("11 %d" % s["s"])]})
+            for s in tu:      # export specifiers are always named; the inline fix is offered for all of them
+                sites.append({"ds": s["s"], "de": s["e"], "reqs": [req_change("11 1 %d" % s["s"])]})
     return {"src": t.src(), "media": media, "rule": "verbatim-module-syntax", "sites": sites}
 
 
@@ -732,6 +696,8 @@ REGRESSION = [
     ("jsx", "no-process-global", "<process />"), ("jsx", "no-node-globals", "<global />"), ("jsx", "no-node-globals", "<Buffer />"),
     ("js", "no-process-global", "with (a) { process.exit(); }"), ("js", "no-process-global", "x = 010; process.exit();"), ("js", "no-node-globals", "var yield = 1; Buffer;"),
     ("js", "no-process-global", "\"use strict\";\nprocess.exit();"), ("ts", "no-process-global", "import a from 'b'\nprocess.exit();"),
+    ("ts", "verbatim-module-syntax", "import { type as as B } from 'x';"), ("ts", "verbatim-module-syntax", "type as = 1; type D = 2; export { type as as C, D };"),
+    ("ts", "verbatim-module-syntax", "import { type as as B, C } from 'x'; type T = B | C;"), ("ts", "verbatim-module-syntax", "import { \"a-b\" as C, D } from 'x'; type T = C; D();"),
     ("ts", "no-window", "function f(globalThis) { window.fetch(); }"), ("ts", "no-window-prefix", "window.fetch(); window[\"console\"]; window[`crypto`];"),
 ]
 
@@ -763,8 +729,18 @@ def run_builds(progs):
             v = r.opt(ch); val = "nofix" if v is None else [v]
         elif dec == "entities":
             rep = r.int(); c = ch(); val = [c] if rep else None
-        elif dec == "changes":
-            val = r.list(ch)
+        elif dec == "optchanges":
+            v = r.opt(lambda: r.list(ch)); val = "nofix" if v is None else v
+        elif dec == "optopt":
+            v = r.opt(lambda: r.opt(ch)); val = None if v is None else ("nofix" if v[0] is None else [v[0]]) if False else None
+            # outer None: no diagnostic; inner None: diagnostic without fix
+            r2 = pipe.Reader(o)
+            if r2.int() == 0:
+                val = None
+            elif r2.int() == 0:
+                val = "nofix"
+            else:
+                val = [(r2.int(), r2.int(), r2.str())]
         acc[(pi, si)] = val
     for (pi, si), val in acc.items():
         st = progs[pi]["sites"][si]
@@ -774,7 +750,6 @@ def run_builds(progs):
             progs[pi]["expected"].append((st["ds"], st["de"], tuple(sorted(val))))
     for p in progs:
         if p["expected"] is not None:
-            p["expected"] += [(st["ds"], st["de"], ("#fixes=0",)) for st in p["sites"] if st.get("nofix")]
             p["expected"].sort()
 
 
@@ -1081,11 +1056,6 @@ def c13(ctx):
     ctx.assumptions.append("'still parses' and 'the rule reports fewer' are delegated to the real parser/linter (every offered fix of every generated and repo test program is applied, re-parsed, re-linted); "
                            "proved: the builders' lexical contracts (Text/FixBuilders.v), the application algebra (Text/FixApply.v), termination of the fix loop GIVEN the per-fix decrease")
     ctx.assumptions.append("swc's tokens/spans, the scope analysis (which identifiers are global) and the regex crate's find_iter/replace are inputs of the models")
-    try:
-        with open(os.path.join(lib.WORK, "c13-proposed-known.json"), "w") as f:
-            json.dump(PROPOSED_KNOWN, f, indent=1, ensure_ascii=False)
-    except OSError:
-        pass
     ctx.proof_stage("C13", ["Text/FixBuilders.vo"])
     exe, out = lib.build_model("text")
     if exe is None:
@@ -1145,7 +1115,6 @@ def c13(ctx):
     ctx.extra["fix_loops_run"] = nloops
     ctx.extra["fix_loop_max_steps"] = maxsteps
     ctx.extra["failure_classes_seen"] = dict(orc.seen)
-    ctx.extra["proposed_known"] = PROPOSED_KNOWN
     ctx.correspondence("property oracle on the implementation: every offered fix applied, re-parsed, re-linted; first-fix loop",
                        orc.fixes_checked + nloops, nontriv, [],
                        "regression programs + every repo test program of the 9 rule files (2 media types) + generated programs; per fix: changes in bounds / on char boundaries / non-overlapping, "
@@ -1173,4 +1142,3 @@ def c13(ctx):
               if o.strip() == "1" and status(x) != "ok"]
         ctx.correspondence("jsx_attr_string (lexical predicate) vs the parser on every attribute fix of jsx-curly-braces", len(attr),
                            sum(1 for o in preds if o.strip() == "0"), pm[:10], "predicate true -> the fixed text parses (a text that is not ONE attribute string may still parse by accident, as something else); non-trivial := predicate false")
-    text_rules_check(ctx, n=1500 if ctx.tier == "quick" else 120000)
